@@ -175,6 +175,8 @@ def handle (st : DState) (op : String) (args impl : List String) : Option (DStat
     | none, _ => noArr
     | _, _ => (st, .malformed "da_whole")
   | "da_rd" => some <|
+    -- a whole read into a container that had another shape before: the container must come back with the shape of the data
+    if impl == ["ok", "[!shape]"] then (st, .rel "da_rd.container" "container_read_has_the_shape_of_the_data") else
     match st.arr, args with
     | some s, [dt, cnt, off, _] =>
       match parseIdx cnt, parseIdx off with
